@@ -367,6 +367,32 @@ def _observer_bfs(which):
     seen = {init: ()}
     q = deque([()])
     trans = 0
+    # the abstraction (model list, has_observers) merges states a faulty implementation may keep apart (e.g. a second
+    # registration of the same observer), so EVERY sequence of the basic operations up to length 5 is also run as is
+    basic = ["watch a", "watch b", "unwatch a", "unwatch b", "unwatch_all", "update changing"]
+    for depth in range(1, 6):
+        for seq in itertools.product(basic, repeat=depth):
+            m = []
+            ok = True
+            for op in seq:
+                if op.startswith("watch"):
+                    if op[-1] not in m:
+                        m.append(op[-1])
+                elif op == "unwatch_all":
+                    m = []
+                elif op.startswith("unwatch"):
+                    if op[-1] not in m:
+                        ok = False
+                        break
+                    m.remove(op[-1])
+            if not ok or seq[-1] != "update changing":
+                continue
+            trans += 1
+            ns, err = build(seq)
+            if err:
+                return len(seen), trans, err
+            if ns[1] != bool(ns[0]):
+                return len(seen), trans, f"after {seq}: has_observers={ns[1]} with model list {ns[0]}"
     while q:
         h = q.popleft()
         state, _ = build(h)
